@@ -374,6 +374,20 @@ def check_record_stream(fx, rep, rule, impl, rl):
     import readers as RD
     drv = RD.driver_of_loop(rl.loop)
     b = rl.body
+    if getattr(rl, "lookahead", None) is not None and rl.lookahead_iter is not None:
+        # manual one-record lookahead: the iterator already gave its first item before the loop; what it iterates is the
+        # initialiser of the iterator variable (one `next()` before the loop, one per iteration: builders.RecordLoop)
+        drv = None
+        for n_ in F.walk(b["body"]):
+            if n_.get("k") == "Block":
+                for s_ in n_["stmts"]:
+                    if s_["k"] == "Let" and s_["pat"].get("k") == "Bind" and s_["pat"].get("name") == rl.lookahead_iter[1] and s_.get("init") is not None:
+                        try:
+                            r_ = S.Sym(fx).ev(s_["init"], S.St())
+                            if len(r_) == 1 and not r_[0][0].effects and not r_[0][0].conds:
+                                drv = r_[0][1][1]
+                        except S.Undecidable:
+                            pass
     mp = [prm["pat"]["name"] for prm in b["params"] if prm.get("pat") and prm["pat"].get("k") == "Bind" and "ProguardMapping" in (prm.get("ty") or "")]
     good = False
     if drv is not None and len(mp) == 1:
